@@ -108,6 +108,30 @@ func ruleArgsCodec(c *Ctx, rule string) {
 			okM = isMI && typeNameOf(mi.X.Type()) == "CniArgs" && isResultOf(mi.X, 0, "(*FloatingIPPlugin).allocateIP")
 		}
 		c.ob(rule, bind, "Bind writes json(CniArgs from allocateIP) under the cni-args annotation", nil, wrote == ann && okM, fmt.Sprintf("annotation key %q; payload = json.Marshal(result of allocateIP)", wrote))
+		// and Bind does not rewrite the result between allocateIP and the encoding (no re-ordering, filtering, de-duplication)
+		touched := ""
+		allInstrs(bind, func(in ssa.Instruction) {
+			st, ok := in.(*ssa.Store)
+			if !ok {
+				return
+			}
+			root := st.Addr
+			for {
+				switch x := root.(type) {
+				case *ssa.FieldAddr:
+					root = x.X
+					continue
+				case *ssa.IndexAddr:
+					root = x.X
+					continue
+				}
+				break
+			}
+			if isResultOf(root, 0, "(*FloatingIPPlugin).allocateIP") {
+				touched = c.instrPos(st)
+			}
+		})
+		c.ob(rule, bind, "Bind encodes the allocateIP result untouched", nil, touched == "", "no store into the CniArgs returned by allocateIP before it is marshalled: the i-th ipinfo stays the ip of the i-th requested range "+touched)
 	}
 	// separator safety
 	if ipinfo != nil {
